@@ -31,7 +31,8 @@ def plane_desc(draw, shape, wl, allow_shapeless):
     if amp_form != "array" and mask_form == "none" and not allow_shapeless:
         mask_form = "2d"
     d = {"amp_form": amp_form, "opd_form": opd_form, "mask_form": mask_form}
-    d["amp"] = amp_a if amp_form == "array" else (1.0 if amp_form == "scalar1" else draw(gen.finite(0.1, 3.0)))
+    sc = draw(gen.scales())
+    d["amp"] = amp_a * sc if amp_form == "array" else (1.0 if amp_form == "scalar1" else draw(gen.finite(0.1, 3.0)) * sc)
     d["opd"] = opd_a if opd_form == "array" else (0.0 if opd_form == "scalar0" else draw(gen.finite(-2.0, 2.0)) * wl)
     if mask_form == "none":
         d["mask"] = None
